@@ -431,7 +431,23 @@ func NewWorld(t testingT, plan *Plan) *World {
 
 	w.ctx, w.Cancel = context.WithCancel(context.Background())
 	args := append([]string{"-forward-url", "http://" + backendAddr}, plan.Args...)
+	// every option has an environment variable of the same meaning (flags.go / env.go): in a
+	// third of the runs (a function of the plan) the configuration reaches the proxy that way
+	var envSet []string
+	if plan.Tail%3 == 1 {
+		if env, ok := argsToEnv(args); ok {
+			for _, kv := range env {
+				os.Setenv(kv[0], kv[1])
+				envSet = append(envSet, kv[0])
+			}
+			args = nil
+			w.Probes["configured_through_environment"]++
+		}
+	}
 	srv, err := fingerproxy.VerifBuild(w.ctx, args)
+	for _, k := range envSet {
+		os.Unsetenv(k)
+	}
 	w.Srv = srv
 	if err == nil && plan.H2DecoderTableSize > 0 {
 		// a library user's setting (no flag reaches it): the HPACK table size the HTTP/2 server
@@ -1331,4 +1347,31 @@ func Census(match ...string) []string {
 		}
 	}
 	return out
+}
+
+var boolFlags = map[string]bool{"preserve-host": true, "enable-kubernetes-probe": true, "verbose": true}
+
+// argsToEnv turns "-name value" / "-name=value" / "-boolname" arguments into the environment
+// variables of the same meaning (NAME in upper case, dashes as underscores).
+func argsToEnv(args []string) (env [][2]string, ok bool) {
+	for i := 0; i < len(args); i++ {
+		a := args[i]
+		if !strings.HasPrefix(a, "-") {
+			return nil, false
+		}
+		name, val, hasVal := strings.Cut(strings.TrimLeft(a, "-"), "=")
+		if !hasVal {
+			if boolFlags[name] {
+				val = "true"
+			} else {
+				if i+1 >= len(args) {
+					return nil, false
+				}
+				i++
+				val = args[i]
+			}
+		}
+		env = append(env, [2]string{strings.ToUpper(strings.ReplaceAll(name, "-", "_")), val})
+	}
+	return env, true
 }
